@@ -537,19 +537,18 @@ def _install_memory_events():
     def read(self, size=-1):
         if not SIM.quiet:
             SIM.event("read", "mem:" + str(getattr(self, "path", "?")), self.tell(),
-                      size if size is not None else -1, yield_=False)
+                      size if size is not None else -1)
         return base_read(self, size)
 
     def readinto(self, b):
         if not SIM.quiet:
-            SIM.event("read", "mem:" + str(getattr(self, "path", "?")), self.tell(), len(b),
-                      yield_=False)
+            SIM.event("read", "mem:" + str(getattr(self, "path", "?")), self.tell(), len(b))
         return base_readinto(self, b)
 
     def seek(self, pos, whence=0):
         out = base_seek(self, pos, whence)
         if not SIM.quiet:
-            SIM.event("seek", "mem:" + str(getattr(self, "path", "?")), out, yield_=False)
+            SIM.event("seek", "mem:" + str(getattr(self, "path", "?")), out)
         return out
 
     MemoryFile.read, MemoryFile.seek, MemoryFile.readinto = read, seek, readinto
